@@ -7,13 +7,14 @@
   `ast.parse`), calls of one name on one argument, and `+`.  `"+".join(parts)` parses left-associated.
 -/
 import Curtsies.Model.ParseArgs
+import Curtsies.Model.EscParse
 namespace Curtsies
 
 /-! ### `__eq__`, `__hash__` -/
 
 /-- The other operand of `==`. -/
 inductive PyObj
-  | fmt (g : FmtStr) | str (t : Text) | other
+  | fmt (g : FmtStr) | str (t : Text) | bytes (reprText : Text) | other
   deriving DecidableEq, Repr
 
 /-- `FmtStr.__eq__(self, other)`; `none` is `NotImplemented` (Python then answers by identity: `False`
@@ -21,6 +22,9 @@ inductive PyObj
 def fmtEqObj (f : FmtStr) : PyObj → Option Bool
   | .fmt g => some (decide (render f = render g))     -- str(self) == str(other)
   | .str t => some (decide (render f = t))            -- str(other) is other
+  -- `isinstance(other, bytes)` is accepted too and compared through `str(other)`, i.e. its repr "b'...'"
+  -- (`reprText`, CPython's): `fmtstr("b'a'") == b'a'` is True
+  | .bytes reprText => some (decide (render f = reprText))
   | .other => none
 
 /-- `f == g` for two FmtStrs -/
@@ -79,21 +83,17 @@ inductive Val
   | str (t : Text) | fmt (f : FmtStr)
   deriving DecidableEq, Repr
 
-/-- `"\x1b[" in s` -/
-def hasEscLBracket : Text → Bool
-  | a :: b :: rest => (a == ESC && b == '[') || hasEscLBracket (b :: rest)
-  | _ => false
-
-/-- `fmtfuncs.<fn>(v)` = `fmtstr(v, style=bound)`. A str argument goes through `FmtStr.from_str`:
-    without `ESC [` that is `FmtStr(Chunk(s))`; with it the escape parser runs (C05/C17), which is
-    outside this model: `none`.  `none` also for an unknown name (NameError) or a raised exception. -/
-def callFmtfunc (lower : String → String) (fn : String) (v : Val) : Option Val :=
+/-- `fmtfuncs.<fn>(v)` = `fmtstr(v, style=bound)`. A str argument goes through `FmtStr.from_str`
+    (`fromStr`, Model/EscParse.lean: a text with `ESC [` is PARSED for escape sequences - the open finding D27;
+    `md` is CPython's int/str digit limit that parser takes).  `none` for an unknown name (NameError) or a raised
+    exception. -/
+def callFmtfunc (md : Nat) (lower : String → String) (fn : String) (v : Val) : Option Val :=
   match Generated.fmtfuncs.lookup fn with
   | none => none
   | some bound =>
     let arg : Option FmtStr :=
       match v with
-      | .str t => if hasEscLBracket t then none else some [⟨t, {}⟩]
+      | .str t => (match fromStr md t with | .ok f => some f | .error _ => none)
       | .fmt f => some f
     match arg with
     | none => none
@@ -109,12 +109,12 @@ def valAdd : Val → Val → Val
   | .str a, .fmt g => .fmt (raddStr g a)
   | .fmt f, .fmt g => .fmt (add f g)
 
-def evalExpr (lower : String → String) : Expr → Option Val
+def evalExpr (md : Nat) (lower : String → String) : Expr → Option Val
   | .lit t => some (.str t)
-  | .app fn e => match evalExpr lower e with
-    | some v => callFmtfunc lower fn v
+  | .app fn e => match evalExpr md lower e with
+    | some v => callFmtfunc md lower fn v
     | none => none
-  | .plus a b => match evalExpr lower a, evalExpr lower b with
+  | .plus a b => match evalExpr md lower a, evalExpr md lower b with
     | some x, some y => some (valAdd x y)
     | _, _ => none
 
